@@ -40,6 +40,21 @@ CLAIMS = {
     "C12": ("proof", "4.C12", "CFG/term check of the registration + finite-partition abstract interpretation of the validator closure's MIR",
             "Same as C11 for nbf with the direction reversed.",
             "trusted: time's RFC 3339 parser and instant ordering; serde_json accessors; models in rules/models.py"),
+    "C13": ("other", "4.C13", "provenance terms of the defaults + abstract interpretation of verify_ready_to_build + who-writes over functions reachable from build",
+            "Decides: defaults from one now (+1h), exp removed iff acknowledged and at build time, acknowledgement only set never cleared, build order, and that building never drains / caches builder state (defaults persist across builds). Rendered values are not decided.",
+            "trusted: time crate rendering; HashMap semantics"),
+    "C14": ("other", "4.C14", "constant tables + per-impl serialisation shape + abstract interpretation of set_claim over the JSON partition + term of the payload entry closure",
+            "Decides the structural conditions of claim fidelity: registered keys, one-entry serialisation, storage under the claim's key (last wins), unwrapping exactly the one-entry map, no transformation at build time, parser returns the parsed payload unmodified. serde_json value round trips are trusted.",
+            "trusted: serde_json round trips JSON values; HashMap::insert replaces"),
+    "C15": ("other", "4.C15", "CFG must-pass-through inside verify_claims' loop + who-writes over functions reachable from parse",
+            "Decides that every expectation is visited, that an iteration without validator completes only through not-null and JSON-equal edges on the authenticated payload, failing edges end in Err, and that parsing changes no parser state.",
+            "trusted: serde_json Value equality / indexing; HashMap iteration"),
+    "C16": ("other", "4.C16", "CFG dominance (validators only after authentication) + must-pass-through inside verify_claims + registration plumbing terms",
+            "Decides: validators are invoked only in verify_claims, only on the Ok value of the authenticating call, with (key, &json[key]); verdict via `?`; every registered validator (with or without expected claim) runs before success; registration replaces.",
+            "trusted: HashMap iteration visits each key once"),
+    "C18": ("other", "4.C18", "constant table + abstract interpretation of the reserved-key check and of all CustomClaim / time-claim constructors",
+            "Decides: reserved table = the 7 registered keys; check is exact on the unmodified key and gates all three constructor forms which store the given key; time constructors accept iff iso8601::datetime accepts and keep the value verbatim. The acceptance set of iso8601 is trusted.",
+            "trusted: iso8601::datetime acceptance set; slice contains / str equality exact"),
     "C17": ("proof", "4.C17", "abstract interpretation of set_claim / verify_ready_to_build + who-writes (monotone flag invariant) + CFG dominance in the 8 build methods",
             "The history quantifier is discharged by an invariant (flag set <=> a key was inserted twice; flag set => build fails first) whose preservation by every method is checked; all obligations must be discharged.",
             "trusted: HashSet::insert semantics; get_key purity for user-defined claims"),
